@@ -4,11 +4,14 @@ package idxfile
 //
 // The pack index written by go-git (Writer -> MemoryIndex -> Encode) is read
 // back by the in-memory decoder (Decoder.Decode -> MemoryIndex) and by the
-// on-disk reader (NewLazyIndex over the same bytes + a .rev file), and every
-// lookup is compared with a plain association list of the entries.
+// on-disk reader (NewLazyIndex over the same bytes + a .rev file); the
+// memory-mapped reader is driven from package storage/filesystem/mmap
+// (zz_verif_c10_mmap.go) over the same world. Every lookup is compared with a
+// plain association list of the entries.
 
 import (
 	"bytes"
+	"errors"
 	"io"
 	"io/fs"
 	"time"
@@ -64,30 +67,22 @@ type VerifC10World struct {
 	Rev  []byte       // reference .rev for the same entries
 }
 
-// verifC10FirstOK restricts a first hash byte to the stated set (the fanout
-// fill loops over the first byte; unrestricted it costs 256 forks per entry).
-func verifC10FirstOK(b byte) bool {
-	ok := verifrt.Or(b == 0x00, b == 0x01)
-	ok = verifrt.Or(ok, b == 0x7f)
-	ok = verifrt.Or(ok, b == 0xfe)
-	ok = verifrt.Or(ok, b == 0xff)
-	return ok
-}
-
-// verifC10Less is a<b over equal-length byte strings as one term.
-func verifC10Less(a, b []byte) bool { return bytes.Compare(a, b) < 0 }
+// The first byte of every object id is concrete on each path and taken from
+// the first FB values of this table (the fanout fill loops over the first
+// byte and the fanout tables are indexed by it; a symbolic first byte costs a
+// solver query per table slot).
+var verifC10Firsts = []byte{0x00, 0xff, 0x7f, 0x01, 0xfe}
 
 var verifC10PackSum = []byte{0xbb, 1, 2, 3, 4, 5, 6, 7, 8, 9, 10, 11, 12, 13, 14, 15, 16, 17, 18, 0xcc}
 
-// VerifC10Entries draws n entries: object ids fully symbolic except that the
-// first byte lies in {00,01,7f,fe,ff}; pairwise distinct, non-zero ids;
-// pairwise distinct offsets below 2^63; arbitrary CRCs. big selects the offset
-// regime: 0 = all below 2^31, 1 = arbitrary.
+// VerifC10Entries draws n entries: object ids fully symbolic except for the
+// first byte (see above); pairwise distinct, non-zero ids; pairwise distinct
+// offsets below 2^63; arbitrary CRCs. big=false restricts offsets to < 2^31.
 func VerifC10Entries(n int, big bool) []VerifC10Entry {
 	es := make([]VerifC10Entry, n)
 	for i := range es {
 		h := verifrt.NondetBytes(20)
-		verifrt.Assume(verifC10FirstOK(h[0]))
+		h[0] = verifC10Firsts[verifrt.Range(0, verifrt.Param("FB")-1)]
 		id, _ := plumbing.FromBytes(h)
 		es[i] = VerifC10Entry{H: h, ID: id, Off: verifrt.NondetUint64(), CRC: verifrt.NondetUint32()}
 		verifrt.Assume(es[i].Off < 1<<63)
@@ -107,8 +102,15 @@ func VerifC10Entries(n int, big bool) []VerifC10Entry {
 	return es
 }
 
+func verifC10BE32(b []byte, v uint32) []byte {
+	return append(b, byte(v>>24), byte(v>>16), byte(v>>8), byte(v))
+}
+
 // VerifC10Build runs the real Writer and Encode over the entries (added in the
-// order given) and builds the .rev bytes with a reference serialiser.
+// order given) and builds the .rev bytes with a reference serialiser
+// (gitformat-pack: "RIDX", version 1, hash id 1, index positions in pack
+// offset order, pack checksum, rev checksum). revfile.Encode cannot be used:
+// it imports this package and it uses reflect.
 func VerifC10Build(es []VerifC10Entry) *VerifC10World {
 	w := &VerifC10World{E: es}
 	w.Pack, _ = plumbing.FromBytes(verifC10PackSum)
@@ -120,16 +122,51 @@ func VerifC10Build(es []VerifC10Entry) *VerifC10World {
 	verifrt.Assert(err == nil, "c10-writer-no-error")
 	w.W, err = wr.Index()
 	verifrt.Assert(err == nil, "c10-writer-index-no-error")
-	var buf bytes.Buffer
-	err = Encode(&buf, verifrt.NewRecHash(20), w.W)
-	verifrt.Assert(err == nil, "c10-encode-no-error")
-	w.Idx = buf.Bytes()
+	w.Idx = VerifC10Encode(w.W)
+	w.Rev = w.revBytes()
 	return w
+}
+
+// VerifC10Encode is Encode into a fresh byte slice.
+func VerifC10Encode(idx *MemoryIndex) []byte {
+	var buf bytes.Buffer
+	err := Encode(&buf, verifrt.NewRecHash(20), idx)
+	verifrt.Assert(err == nil, "c10-encode-no-error")
+	return buf.Bytes()
+}
+
+// revBytes: entry i sits at index position pos_i = #{j: h_j < h_i} and at rev
+// slot rank_i = #{j: off_j < off_i}; slot r holds the pos of the entry whose
+// rank is r. All terms, no forks.
+func (w *VerifC10World) revBytes() []byte {
+	n := len(w.E)
+	pos := make([]int, n)
+	rank := make([]int, n)
+	for i := range w.E {
+		for j := range w.E {
+			if i == j {
+				continue
+			}
+			pos[i] += verifrt.Ite(bytes.Compare(w.E[j].H, w.E[i].H) < 0, 1, 0)
+			rank[i] += verifrt.Ite(w.E[j].Off < w.E[i].Off, 1, 0)
+		}
+	}
+	b := []byte{'R', 'I', 'D', 'X', 0, 0, 0, 1, 0, 0, 0, 1}
+	for r := 0; r < n; r++ {
+		v := 0
+		for i := range w.E {
+			v = verifrt.Ite(rank[i] == r, pos[i], v)
+		}
+		b = verifC10BE32(b, uint32(v))
+	}
+	b = append(b, verifC10PackSum...)
+	b = append(b, make([]byte, 20)...) // rev checksum: not read by LazyIndex / PackScanner
+	return b
 }
 
 // ---------- the association-list model (terms, no forks) ----------
 
-func (w *VerifC10World) member(p []byte) bool {
+func (w *VerifC10World) Member(p []byte) bool {
 	m := false
 	for _, e := range w.E {
 		m = verifrt.Or(m, verifrt.BytesEq(e.H, p))
@@ -137,7 +174,7 @@ func (w *VerifC10World) member(p []byte) bool {
 	return m
 }
 
-func (w *VerifC10World) offOf(p []byte) uint64 {
+func (w *VerifC10World) OffOf(p []byte) uint64 {
 	var o uint64
 	for _, e := range w.E {
 		o = uint64(verifrt.Ite(verifrt.BytesEq(e.H, p), int(e.Off), int(o)))
@@ -145,6 +182,62 @@ func (w *VerifC10World) offOf(p []byte) uint64 {
 	return o
 }
 
+func (w *VerifC10World) CRCOf(p []byte) uint32 {
+	var o uint32
+	for _, e := range w.E {
+		o = uint32(verifrt.Ite(verifrt.BytesEq(e.H, p), int(e.CRC), int(o)))
+	}
+	return o
+}
+
+// HasOff: some entry sits at pack offset o.
+func (w *VerifC10World) HasOff(o int64) bool {
+	m := false
+	for _, e := range w.E {
+		m = verifrt.Or(m, e.Off == uint64(o))
+	}
+	return m
+}
+
+// IsAt: the entry at pack offset o has the visible id bytes h.
+func (w *VerifC10World) IsAt(o int64, h []byte) bool {
+	m := false
+	for _, e := range w.E {
+		m = verifrt.Or(m, verifrt.And(e.Off == uint64(o), verifrt.BytesEq(e.H, h)))
+	}
+	return m
+}
+
+// HasBucket: some entry's id starts with byte b.
+func (w *VerifC10World) HasBucket(b byte) bool {
+	m := false
+	for _, e := range w.E {
+		m = verifrt.Or(m, e.H[0] == b)
+	}
+	return m
+}
+
+// hasEntry: (h, off, crc) is one of the entries.
+func (w *VerifC10World) hasEntry(e *Entry) bool {
+	m := false
+	hb := e.Hash.Bytes()
+	for _, x := range w.E {
+		m = verifrt.Or(m, verifrt.And(verifrt.BytesEq(x.H, hb), verifrt.And(x.Off == e.Offset, x.CRC == e.CRC32)))
+	}
+	return m
+}
+
+func (w *VerifC10World) countPrefix(prefix []byte) int {
+	c := 0
+	for _, x := range w.E {
+		c += verifrt.Ite(bytes.HasPrefix(x.H, prefix), 1, 0)
+	}
+	return c
+}
+
+// all64: every entry needs the 64-bit table. Such an index cannot come from a
+// pack (the first object sits at offset 12) and both git's load_idx and
+// go-git's Decoder bound the 64-bit table by nr-1 slots.
 func (w *VerifC10World) all64() bool {
 	a := len(w.E) > 0
 	for _, e := range w.E {
@@ -153,32 +246,651 @@ func (w *VerifC10World) all64() bool {
 	return a
 }
 
-// VerifC10Probe draws a probe id whose first byte lies in the entry set or is 0x80.
+// VerifC10Probe draws a probe id: first byte one of the FB table values or
+// 0x80 (a bucket that is always empty), the other 19 bytes symbolic.
 func VerifC10Probe() []byte {
 	p := verifrt.NondetBytes(20)
-	verifrt.Assume(verifrt.Or(verifC10FirstOK(p[0]), p[0] == 0x80))
+	fb := verifrt.Param("FB")
+	k := verifrt.Range(0, fb)
+	if k == fb {
+		p[0] = 0x80
+	} else {
+		p[0] = verifC10Firsts[k]
+	}
 	return p
 }
 
-// H1a: Writer -> Encode -> Decode; FindOffset of a symbolic probe.
-func VerifHarness_C10_mem_offset() {
-	n := verifrt.Range(0, verifrt.Param("N"))
-	w := VerifC10Build(VerifC10Entries(n, verifrt.Param("BIG") != 0))
+// verifC10Prefix draws a prefix of 1..PL bytes, first byte as for probes.
+func verifC10Prefix() []byte {
+	return VerifC10Probe()[:verifrt.Range(1, verifrt.Param("PL"))]
+}
+
+// VerifC10NewWorld draws NMIN..N entries and builds the files.
+func VerifC10NewWorld() *VerifC10World {
+	n := verifrt.Range(verifrt.Param("NMIN"), verifrt.Param("N"))
+	return VerifC10Build(VerifC10Entries(n, verifrt.Param("BIG") != 0))
+}
+
+// decoded returns Decode(Encode(W)); the decoder accepts exactly the indexes
+// that have a 31-bit offset (or are empty), see all64.
+func (w *VerifC10World) decoded() *MemoryIndex {
 	m := NewMemoryIndex(20)
 	err := NewDecoder(verifC10Input{bytes.NewReader(w.Idx), int64(len(w.Idx))}, verifrt.NewRecHash(20)).Decode(m)
 	verifrt.Assert((err != nil) == w.all64(), "c10-decode-accepts-written-index")
 	if err != nil {
+		return nil
+	}
+	return m
+}
+
+func (w *VerifC10World) lazy() *LazyIndex {
+	l, err := NewLazyIndex(verifC10Opener(w.Idx), verifC10Opener(w.Rev), w.Pack)
+	verifrt.Assert(err == nil, "c10-lazy-opens-written-index")
+	if err != nil {
+		return nil
+	}
+	return l
+}
+
+// ---------- generic checks against the model ----------
+
+// checkProbe: MayContain, Contains, FindOffset, FindCRC32 of one probe.
+func (w *VerifC10World) checkProbe(x Index, p []byte, tag string) {
+	ph, _ := plumbing.FromBytes(p)
+	mem := w.Member(p)
+	may := x.MayContain(ph)
+	verifrt.Assert(may == w.HasBucket(p[0]), "c10-"+tag+"-maycontain-iff-bucket-nonempty")
+	ok, err := x.Contains(ph)
+	verifrt.Assert(err == nil, "c10-"+tag+"-contains-no-error")
+	verifrt.Assert(ok == mem, "c10-"+tag+"-contains-iff-member")
+	off, err := x.FindOffset(ph)
+	verifrt.Assert((err == nil) == mem, "c10-"+tag+"-findoffset-found-iff-member")
+	if err == nil {
+		verifrt.Assert(off == int64(w.OffOf(p)), "c10-"+tag+"-findoffset-value")
+	} else {
+		verifrt.Assert(errors.Is(err, plumbing.ErrObjectNotFound), "c10-"+tag+"-findoffset-notfound-error")
+	}
+	crc, err := x.FindCRC32(ph)
+	verifrt.Assert((err == nil) == mem, "c10-"+tag+"-findcrc-found-iff-member")
+	if err == nil {
+		verifrt.Assert(crc == w.CRCOf(p), "c10-"+tag+"-findcrc-value")
+	}
+}
+
+// verifC10Canonical: the 12 bytes of the ObjectID array behind a SHA-1 id are
+// zero, i.e. the value compares equal (==, Equal, map key) to the same id
+// obtained from FromBytes/FromHex.
+func verifC10Canonical(h plumbing.Hash) bool {
+	c, _ := plumbing.FromBytes(h.Bytes())
+	return h.Equal(c)
+}
+
+func verifC10NonZero(b []byte) bool {
+	nz := false
+	for _, c := range b {
+		nz = verifrt.Or(nz, c != 0)
+	}
+	return nz
+}
+
+// verifC10SpillIter characterises the ids that MemoryIndex's Entries iterator
+// returns with non-zero hidden bytes: ObjectID.Write is given the rest of the
+// bucket, so the 12 bytes behind a SHA-1 id are the first 12 bytes of the next
+// name of the same bucket.
+func verifC10SpillIter(idx *MemoryIndex, visible []byte) bool {
+	bad := false
+	for _, names := range idx.Names {
+		for j := 0; j+40 <= len(names); j += 20 {
+			bad = verifrt.Or(bad, verifrt.And(verifrt.BytesEq(names[j:j+20], visible), verifC10NonZero(names[j+20:j+32])))
+		}
+	}
+	return bad
+}
+
+// verifC10SpillRev is the same for genOffsetHash (FindHash): there the hash
+// variable is reused without a reset, so the last name of a bucket keeps the
+// hidden bytes of the previous iteration.
+func verifC10SpillRev(idx *MemoryIndex, visible []byte) bool {
+	bad := false
+	stale := make([]byte, 12)
+	for k := 0; k < 256; k++ {
+		b := idx.FanoutMapping[k]
+		if b == noMapping {
+			continue
+		}
+		names := idx.Names[b]
+		for j := 0; j+20 <= len(names); j += 20 {
+			if j+40 <= len(names) {
+				stale = names[j+20 : j+32]
+			}
+			bad = verifrt.Or(bad, verifrt.And(verifrt.BytesEq(names[j:j+20], visible), verifC10NonZero(stale)))
+		}
+	}
+	return bad
+}
+
+// checkIter: the iterator yields exactly the model entries that start with
+// prefix, each once, in id order (byOff: in pack-offset order).
+func (w *VerifC10World) checkIter(it EntryIter, err error, prefix []byte, byOff bool, spill *MemoryIndex, tag string) {
+	verifrt.Assert(err == nil && it != nil, "c10-"+tag+"-iter-no-error")
+	if err != nil || it == nil {
+		return
+	}
+	var prev *Entry
+	count := 0
+	for {
+		e, err := it.Next()
+		if err == io.EOF {
+			break
+		}
+		verifrt.Assert(err == nil, "c10-"+tag+"-next-no-error")
+		verifrt.Assert(count < len(w.E), "c10-"+tag+"-yields-at-most-n")
+		if err != nil || count >= len(w.E) {
+			return
+		}
+		verifrt.Assert(w.hasEntry(e), "c10-"+tag+"-entry-is-in-the-model")
+		verifrt.Assert(bytes.HasPrefix(e.Hash.Bytes(), prefix), "c10-"+tag+"-entry-has-prefix")
+		if prev != nil {
+			if byOff {
+				verifrt.Assert(prev.Offset < e.Offset, "c10-"+tag+"-ascending-offsets")
+			} else {
+				verifrt.Assert(bytes.Compare(prev.Hash.Bytes(), e.Hash.Bytes()) < 0, "c10-"+tag+"-ascending-ids")
+			}
+		}
+		if spill != nil {
+			verifrt.Known("C10-memidx-entries-id-spill", verifC10SpillIter(spill, e.Hash.Bytes()))
+		}
+		verifrt.Assert(verifC10Canonical(e.Hash), "c10-"+tag+"-id-is-canonical")
+		prev = e
+		count++
+	}
+	verifrt.Assert(count == w.countPrefix(prefix), "c10-"+tag+"-yields-every-match")
+	_, err = it.Next()
+	verifrt.Assert(err == io.EOF, "c10-"+tag+"-eof-is-sticky")
+	verifrt.Assert(it.Close() == nil, "c10-"+tag+"-close-no-error")
+}
+
+// checkRev: FindHash of a symbolic offset, Entries, EntriesByOffset, Count.
+func (w *VerifC10World) checkRev(x Index, spill *MemoryIndex, tag string) {
+	c, err := x.Count()
+	verifrt.Assert(err == nil && c == int64(len(w.E)), "c10-"+tag+"-count")
+	o := verifrt.NondetInt64()
+	h, err := x.FindHash(o)
+	verifrt.Assert((err == nil) == w.HasOff(o), "c10-"+tag+"-findhash-found-iff-offset-used")
+	if err == nil {
+		verifrt.Assert(w.IsAt(o, h.Bytes()), "c10-"+tag+"-findhash-value")
+		if spill != nil {
+			verifrt.Known("C10-memidx-findhash-id-spill", verifC10SpillRev(spill, h.Bytes()))
+		}
+		verifrt.Assert(verifC10Canonical(h), "c10-"+tag+"-findhash-id-is-canonical")
+	} else {
+		verifrt.Assert(errors.Is(err, plumbing.ErrObjectNotFound), "c10-"+tag+"-findhash-notfound-error")
+	}
+	it, err := x.Entries()
+	w.checkIter(it, err, nil, false, spill, tag+"-entries")
+	it, err = x.EntriesByOffset()
+	w.checkIter(it, err, nil, true, spill, tag+"-byoffset")
+}
+
+// ---------- H1: readers vs the map ----------
+
+// mem-probe: Decode(Encode(Writer index)) and the Writer's own index answer a
+// symbolic probe like the map.
+func VerifHarness_C10_mem_probe() {
+	w := VerifC10NewWorld()
+	p := VerifC10Probe()
+	verifrt.Reach("c10-mem-probe")
+	w.checkProbe(w.W, p, "writer")
+	if m := w.decoded(); m != nil {
+		verifrt.Reach("c10-mem-probe-decoded")
+		w.checkProbe(m, p, "mem")
+	}
+}
+
+// mem-rev: offset -> id, ordered iteration, iteration by offset (decoded index).
+func VerifHarness_C10_mem_rev() {
+	w := VerifC10NewWorld()
+	m := w.decoded()
+	if m == nil {
+		return
+	}
+	verifrt.Reach("c10-mem-rev")
+	w.checkRev(m, m, "mem")
+}
+
+// mem-prefix: prefix enumeration (decoded index).
+func VerifHarness_C10_mem_prefix() {
+	w := VerifC10NewWorld()
+	m := w.decoded()
+	if m == nil {
+		return
+	}
+	prefix := verifC10Prefix()
+	verifrt.Reach("c10-mem-prefix")
+	it, err := m.EntriesWithPrefix(prefix)
+	w.checkIter(it, err, prefix, false, nil, "mem-prefix")
+}
+
+func VerifHarness_C10_lazy_probe() {
+	w := VerifC10NewWorld()
+	l := w.lazy()
+	if l == nil {
 		return
 	}
 	p := VerifC10Probe()
-	ph, _ := plumbing.FromBytes(p)
-	mem := w.member(p)
-	want := w.offOf(p)
-	got, ferr := m.FindOffset(ph)
-	verifrt.Reach("c10-mem-offset")
-	verifrt.Assert((ferr == nil) == mem, "c10-mem-findoffset-found-iff-member")
-	if ferr == nil {
-		verifrt.Assert(got == int64(want), "c10-mem-findoffset-value")
+	verifrt.Reach("c10-lazy-probe")
+	w.checkProbe(l, p, "lazy")
+	verifrt.Assert(l.Close() == nil, "c10-lazy-close")
+}
+
+func VerifHarness_C10_lazy_rev() {
+	w := VerifC10NewWorld()
+	l := w.lazy()
+	if l == nil {
+		return
 	}
-	_ = io.EOF
+	verifrt.Reach("c10-lazy-rev")
+	w.checkRev(l, nil, "lazy")
+}
+
+func VerifHarness_C10_lazy_prefix() {
+	w := VerifC10NewWorld()
+	l := w.lazy()
+	if l == nil {
+		return
+	}
+	prefix := verifC10Prefix()
+	verifrt.Reach("c10-lazy-prefix")
+	it, err := l.EntriesWithPrefix(prefix)
+	w.checkIter(it, err, prefix, false, nil, "lazy-prefix")
+}
+
+// ---------- H2: one deep bucket, constructed directly ----------
+
+// verifC10Bucket draws k names with first byte 0x7f, assumed strictly sorted.
+func verifC10Bucket(k int) []byte {
+	names := verifrt.NondetBytes(k * 20)
+	for i := 0; i < k; i++ {
+		names[i*20] = 0x7f
+		if i > 0 {
+			verifrt.Assume(bytes.Compare(names[(i-1)*20:i*20], names[i*20:i*20+20]) < 0)
+		}
+	}
+	return names
+}
+
+func verifC10BucketMember(names, p []byte) bool {
+	m := false
+	for j := 0; j+20 <= len(names); j += 20 {
+		m = verifrt.Or(m, verifrt.BytesEq(names[j:j+20], p))
+	}
+	return m
+}
+
+func verifC10BucketProbe() []byte {
+	p := verifrt.NondetBytes(20)
+	p[0] = 0x7f
+	return p
+}
+
+func verifC10BucketIndex(names []byte) *MemoryIndex {
+	k := len(names) / 20
+	m := NewMemoryIndex(20)
+	for i := range m.FanoutMapping {
+		m.FanoutMapping[i] = noMapping
+	}
+	if k > 0 {
+		m.FanoutMapping[0x7f] = 0
+		m.Names = [][]byte{names}
+		off := make([]byte, 0, 4*k)
+		for i := 0; i < k; i++ {
+			off = verifC10BE32(off, uint32(i)+100)
+		}
+		m.Offset32 = [][]byte{off}
+		m.CRC32 = [][]byte{make([]byte, 4*k)}
+	}
+	for i := 0x7f; i < 256; i++ {
+		m.Fanout[i] = uint32(k)
+	}
+	m.Version = VersionSupported
+	return m
+}
+
+func verifC10ID(p []byte) plumbing.Hash {
+	h, _ := plumbing.FromBytes(p)
+	return h
+}
+
+// bucket-mem: findHashIndex and EntriesWithPrefix over k sorted names.
+func VerifHarness_C10_bucket_mem() {
+	k := verifrt.Range(0, verifrt.Param("K"))
+	names := verifC10Bucket(k)
+	m := verifC10BucketIndex(names)
+	if verifrt.NondetBool() {
+		p := verifC10BucketProbe()
+		i, ok := m.findHashIndex(verifC10ID(p))
+		verifrt.Reach("c10-bucket-mem")
+		verifrt.Assert(ok == verifC10BucketMember(names, p), "c10-bucket-mem-found-iff-member")
+		if ok {
+			verifrt.Assert(i >= 0 && i < k, "c10-bucket-mem-index-in-range")
+			verifrt.Assert(verifrt.BytesEq(names[i*20:i*20+20], p), "c10-bucket-mem-index-is-the-name")
+		}
+		return
+	}
+	prefix := verifC10BucketProbe()[:verifrt.Range(1, verifrt.Param("PL"))]
+	it, err := m.EntriesWithPrefix(prefix)
+	verifrt.Assert(err == nil, "c10-bucket-mem-prefix-no-error")
+	verifC10BucketIter(it, names, prefix, "bucket-mem")
+}
+
+// verifC10BucketIter: it yields exactly the names with the prefix, in order,
+// with the offsets 100+position.
+func verifC10BucketIter(it EntryIter, names, prefix []byte, tag string) {
+	k := len(names) / 20
+	want := 0
+	first := 0 // position of the first match (names are sorted: matches are contiguous)
+	for j := k - 1; j >= 0; j-- {
+		hp := bytes.HasPrefix(names[j*20:j*20+20], prefix)
+		want += verifrt.Ite(hp, 1, 0)
+		first = verifrt.Ite(hp, j, first)
+	}
+	count := 0
+	for {
+		e, err := it.Next()
+		if err == io.EOF {
+			break
+		}
+		verifrt.Assert(err == nil, "c10-"+tag+"-next-no-error")
+		verifrt.Assert(count < k, "c10-"+tag+"-yields-at-most-k")
+		if err != nil || count >= k {
+			return
+		}
+		verifrt.Assert(bytes.HasPrefix(e.Hash.Bytes(), prefix), "c10-"+tag+"-entry-has-prefix")
+		verifrt.Assert(e.Offset == uint64(first+count+100), "c10-"+tag+"-entry-is-next-match")
+		verifrt.Assert(verifC10Canonical(e.Hash), "c10-"+tag+"-id-is-canonical")
+		count++
+	}
+	verifrt.Reach("c10-" + tag + "-prefix")
+	verifrt.Assert(count == want, "c10-"+tag+"-yields-every-match")
+}
+
+// verifC10BucketFile lays the bucket out as an idx v2 file (header, fanout,
+// names, crc, offsets, checksums) without running the encoder.
+func verifC10BucketFile(names []byte) []byte {
+	k := len(names) / 20
+	b := []byte{0xff, 't', 'O', 'c', 0, 0, 0, 2}
+	for i := 0; i < 256; i++ {
+		if i >= 0x7f {
+			b = verifC10BE32(b, uint32(k))
+		} else {
+			b = verifC10BE32(b, 0)
+		}
+	}
+	b = append(b, names...)
+	b = append(b, make([]byte, 4*k)...)
+	for i := 0; i < k; i++ {
+		b = verifC10BE32(b, uint32(i)+100)
+	}
+	b = append(b, verifC10PackSum...)
+	b = append(b, make([]byte, 20)...)
+	return b
+}
+
+// VerifC10BucketRev is the .rev of a bucket file (offsets ascend with position).
+func VerifC10BucketRev(k int) []byte {
+	rev := []byte{'R', 'I', 'D', 'X', 0, 0, 0, 1, 0, 0, 0, 1}
+	for i := 0; i < k; i++ {
+		rev = verifC10BE32(rev, uint32(i))
+	}
+	return append(rev, make([]byte, 40)...)
+}
+
+// bucket-lazy: LazyIndex.findHashPos and EntriesWithPrefix over k sorted names.
+func VerifHarness_C10_bucket_lazy() {
+	k := verifrt.Range(0, verifrt.Param("K"))
+	names := verifC10Bucket(k)
+	file := verifC10BucketFile(names)
+	l, err := NewLazyIndex(verifC10Opener(file), verifC10Opener(VerifC10BucketRev(k)), verifC10ID(verifC10PackSum))
+	verifrt.Assert(err == nil, "c10-bucket-lazy-opens")
+	if err != nil {
+		return
+	}
+	if verifrt.NondetBool() {
+		p := verifC10BucketProbe()
+		i, ok, err := l.findHashPos(bytes.NewReader(file), verifC10ID(p))
+		verifrt.Reach("c10-bucket-lazy")
+		verifrt.Assert(err == nil, "c10-bucket-lazy-no-error")
+		verifrt.Assert(ok == verifC10BucketMember(names, p), "c10-bucket-lazy-found-iff-member")
+		if ok {
+			verifrt.Assert(i >= 0 && i < k, "c10-bucket-lazy-index-in-range")
+			verifrt.Assert(verifrt.BytesEq(names[i*20:i*20+20], p), "c10-bucket-lazy-index-is-the-name")
+		}
+		return
+	}
+	prefix := verifC10BucketProbe()[:verifrt.Range(1, verifrt.Param("PL"))]
+	it, err := l.EntriesWithPrefix(prefix)
+	verifrt.Assert(err == nil, "c10-bucket-lazy-prefix-no-error")
+	verifC10BucketIter(it, names, prefix, "bucket-lazy")
+}
+
+// VerifC10BucketWorld exposes the bucket construction to the mmap harness.
+func VerifC10BucketWorld(k int) (names, file, probe []byte) {
+	names = verifC10Bucket(k)
+	return names, verifC10BucketFile(names), verifC10BucketProbe()
+}
+
+// VerifC10BucketMember is the membership term of a bucket.
+func VerifC10BucketMember(names, p []byte) bool { return verifC10BucketMember(names, p) }
+
+// ---------- H3: malformed files ----------
+
+// size: minIdxV2Size / maxIdxV2Size are exact for every 32-bit object count
+// (nothing can overflow int64: nr < 2^32, per-object size <= 40), and
+// validateIdxV2Size accepts exactly min <= size <= max. The error texts format
+// nr and size with %d (one engine path per digit count), so for the
+// validateIdxV2Size call nr is drawn from three windows and size from the five
+// positions around the bounds.
+func VerifHarness_C10_size() {
+	hs := 20
+	if verifrt.NondetBool() {
+		hs = 32
+	}
+	nr := verifrt.NondetUint32()
+	min := int64(8+1024+2*hs) + int64(nr)*int64(hs+8)
+	max := min
+	if nr > 0 {
+		max = min + (int64(nr)-1)*8
+	}
+	verifrt.Assert(minIdxV2Size(int64(nr), int64(hs)) == min, "c10-size-min-exact")
+	verifrt.Assert(maxIdxV2Size(int64(nr), int64(hs)) == max, "c10-size-max-exact")
+	switch verifrt.Range(0, 2) {
+	case 0:
+		verifrt.Assume(nr < 10)
+	case 1:
+		verifrt.Assume(nr >= 1<<31 && nr < 1<<31+10)
+	default:
+		verifrt.Assume(nr >= 4294967290)
+	}
+	var size int64
+	switch verifrt.Range(0, 4) {
+	case 0:
+		size = min - 1
+	case 1:
+		size = min
+	case 2:
+		size = max
+	case 3:
+		size = max + 1
+	default:
+		size = min + int64(verifrt.NondetUint32())
+	}
+	m := NewMemoryIndex(hs)
+	m.Fanout[255] = nr
+	err := validateIdxV2Size(m, size)
+	verifrt.Reach("c10-size")
+	verifrt.Assert((err == nil) == verifrt.And(min <= size, size <= max), "c10-size-accepted-iff-within-bounds")
+	if err != nil {
+		verifrt.Assert(errors.Is(err, ErrMalformedIdxFile), "c10-size-error-is-malformed")
+	}
+}
+
+// arith: addInt64 over full 64-bit operands (mulInt64 with a 64-bit operand is
+// beyond the solver: 64-bit multiply followed by divide).
+func VerifHarness_C10_arith() {
+	x, y := verifrt.NondetInt64(), verifrt.NondetInt64()
+	s, ok := addInt64(x, y)
+	fitsAdd := verifrt.And(verifrt.And(x >= 0, y >= 0), (uint64(x)+uint64(y))>>63 == 0)
+	verifrt.Reach("c10-arith")
+	verifrt.Assert(ok == fitsAdd, "c10-arith-add-ok-iff-fits")
+	if ok {
+		verifrt.Assert(uint64(s) == uint64(x)+uint64(y), "c10-arith-add-value")
+	}
+}
+
+// VerifC10Corrupt overwrites the 32-bit offset slot of one entry (chosen by
+// Range) of the Writer's index with 4 symbolic bytes and re-encodes, so the
+// idx checksum is that of the corrupted content. It returns the id of the
+// entry, the slot value and the number of 64-bit slots in the file.
+func (w *VerifC10World) VerifC10Corrupt() (id []byte, v uint32, slots int) {
+	nb := len(w.W.Names)
+	b := verifrt.Range(0, nb-1)
+	j := verifrt.Range(0, len(w.W.Names[b])/20-1)
+	nv := verifrt.NondetBytes(4)
+	copy(w.W.Offset32[b][j*4:], nv)
+	w.Idx = VerifC10Encode(w.W)
+	id = w.W.Names[b][j*20 : j*20+20]
+	v = uint32(nv[0])<<24 | uint32(nv[1])<<16 | uint32(nv[2])<<8 | uint32(nv[3])
+	return id, v, len(w.W.Offset64) / 8
+}
+
+// VerifC10EscapeOracle: what a reader may answer for an entry whose 32-bit
+// slot holds v in a file with slots 64-bit slots: v itself, the slot it
+// designates, or an error when it designates nothing.
+func (w *VerifC10World) VerifC10EscapeOracle(v uint32, slots int, got uint64, err error, tag string) {
+	esc := v&0x80000000 != 0
+	k := int(v & 0x7fffffff)
+	if err == nil {
+		verifrt.Assert(verifrt.Or(!esc, k < slots), "c10-"+tag+"-dangling-escape-is-an-error")
+		var want uint64
+		for s := 0; s < slots; s++ {
+			var x uint64
+			for t := 0; t < 8; t++ {
+				x = x<<8 | uint64(w.W.Offset64[s*8+t])
+			}
+			want = uint64(verifrt.Ite(k == s, int(x), int(want)))
+		}
+		want = uint64(verifrt.Ite(esc, int(want), int(v)))
+		verifrt.Assert(got == want, "c10-"+tag+"-escape-value")
+	}
+}
+
+// escape: a 32-bit offset slot holding an arbitrary value, in particular an
+// escape into the 64-bit table that designates no slot: every reader of this
+// package returns an error or the designated value; no out-of-range read
+// (a Go panic is a violation).
+func VerifHarness_C10_escape() {
+	n := verifrt.Range(1, verifrt.Param("N"))
+	w := VerifC10Build(VerifC10Entries(n, true))
+	id, v, slots := w.VerifC10Corrupt()
+	h := verifC10ID(id)
+	verifrt.Reach("c10-escape")
+	// the in-memory index itself
+	off, err := w.W.FindOffset(h)
+	w.VerifC10EscapeOracle(v, slots, uint64(off), err, "writer")
+	// decoded
+	m := NewMemoryIndex(20)
+	derr := NewDecoder(verifC10Input{bytes.NewReader(w.Idx), int64(len(w.Idx))}, verifrt.NewRecHash(20)).Decode(m)
+	if derr == nil {
+		verifrt.Reach("c10-escape-decoded")
+		off, err = m.FindOffset(h)
+		w.VerifC10EscapeOracle(v, slots, uint64(off), err, "mem")
+		it, err := m.Entries()
+		verifrt.Assert(err == nil, "c10-escape-mem-entries")
+		for i := 0; i <= n; i++ {
+			if _, err := it.Next(); err != nil {
+				break
+			}
+		}
+	}
+	// lazy (the .rev of the uncorrupted entries)
+	l, lerr := NewLazyIndex(verifC10Opener(w.Idx), verifC10Opener(w.Rev), w.Pack)
+	if lerr == nil {
+		verifrt.Reach("c10-escape-lazy")
+		off, err = l.FindOffset(h)
+		w.VerifC10EscapeOracle(v, slots, uint64(off), err, "lazy")
+		_, _ = l.FindHash(verifrt.NondetInt64())
+	}
+}
+
+// VerifC10CorruptRev returns a copy of the .rev whose positions are replaced:
+// each is any of 0..n+1 (n and n+1 are out of range), 2^31-1 or 2^32-1,
+// concrete per path (a symbolic position is a symbolic slice bound / file
+// offset, which the engine enumerates value by value).
+func (w *VerifC10World) VerifC10CorruptRev() []byte {
+	n := len(w.E)
+	rev := append([]byte{}, w.Rev...)
+	for i := 0; i < n; i++ {
+		v := uint32(verifrt.Range(0, n+3))
+		if int(v) == n+2 {
+			v = 0x7fffffff
+		} else if int(v) == n+3 {
+			v = 0xffffffff
+		}
+		copy(rev[12+4*i:], verifC10BE32(nil, v))
+	}
+	return rev
+}
+
+// rev-lazy: a .rev whose positions are wrong or out of range never makes the
+// lazy reader read out of range or name an object that is not at that offset.
+func VerifHarness_C10_rev_lazy() {
+	n := verifrt.Range(1, verifrt.Param("N"))
+	w := VerifC10Build(VerifC10Entries(n, true))
+	rev := w.VerifC10CorruptRev()
+	l, err := NewLazyIndex(verifC10Opener(w.Idx), verifC10Opener(rev), w.Pack)
+	verifrt.Assert(err == nil, "c10-rev-lazy-opens")
+	if err != nil {
+		return
+	}
+	o := verifrt.NondetInt64()
+	h, err := l.FindHash(o)
+	verifrt.Reach("c10-rev-lazy")
+	if err == nil {
+		verifrt.Assert(w.IsAt(o, h.Bytes()), "c10-rev-lazy-findhash-value")
+	}
+	it, err := l.EntriesByOffset()
+	verifrt.Assert(err == nil, "c10-rev-lazy-byoffset-no-error")
+	for i := 0; i <= n; i++ {
+		e, err := it.Next()
+		if err != nil {
+			break
+		}
+		verifrt.Assert(w.hasEntry(e), "c10-rev-lazy-entry-is-in-the-model")
+	}
+}
+
+// fanout: one fanout word replaced by a value that breaks monotonicity: the
+// decoder and the lazy reader reject the file.
+func VerifHarness_C10_fanout() {
+	n := verifrt.Range(0, verifrt.Param("N"))
+	w := VerifC10Build(VerifC10Entries(n, false))
+	slots := []int{0, 1, 0x7e, 0x7f, 0x80, 0xfe}
+	k := slots[verifrt.Range(0, len(slots)-1)]
+	v := verifrt.NondetUint32()
+	below := false
+	if k > 0 {
+		below = v < w.W.Fanout[k-1]
+	}
+	verifrt.Assume(verifrt.Or(v > w.W.Fanout[k+1], below))
+	w.W.Fanout[k] = v
+	w.Idx = VerifC10Encode(w.W)
+	m := NewMemoryIndex(20)
+	derr := NewDecoder(verifC10Input{bytes.NewReader(w.Idx), int64(len(w.Idx))}, verifrt.NewRecHash(20)).Decode(m)
+	verifrt.Reach("c10-fanout")
+	verifrt.Assert(derr != nil, "c10-fanout-decoder-rejects-non-monotone")
+	if derr != nil {
+		verifrt.Assert(errors.Is(derr, ErrMalformedIdxFile), "c10-fanout-decoder-error-is-malformed")
+	}
+	_, lerr := NewLazyIndex(verifC10Opener(w.Idx), verifC10Opener(w.Rev), w.Pack)
+	verifrt.Assert(lerr != nil, "c10-fanout-lazy-rejects-non-monotone")
 }
